@@ -158,9 +158,13 @@ def render_input(rng, g, toks):
 
 def bnf_case(rng, kinds=False, layout=None, nterm=None):
     nterm = nterm or rng.choice([1, 1, 2, 2, 3, 3, 4, 5, 8])
-    g = gram.random_grammar(rng, max_nts=rng.choice([1, 2, 3, 4, 5]), max_alts=rng.choice([2, 3, 4]),
-                            max_rhs=rng.choice([2, 3, 4]), nterm=nterm, p_empty=rng.choice([0.0, 0.15, 0.3]),
-                            layout=layout)
+    for _ in range(6):
+        g = gram.random_grammar(rng, max_nts=rng.choice([1, 2, 3, 4, 5]), max_alts=rng.choice([2, 3, 4]),
+                                max_rhs=rng.choice([2, 3, 4]), nterm=nterm, p_empty=rng.choice([0.0, 0.15, 0.3]),
+                                layout=layout)
+        # the compiler rejects `A: A` and unproductive left recursion ("infinite recursion"); mostly avoid them
+        if not any(rhs == [l] for l, rhs in g.prods) and g.all_productive():
+            break
     if rng.random() < 0.5:
         g = gram.annotate(rng, g)
     if kinds:
@@ -209,6 +213,20 @@ def gen_cases(rng, n_random, lit_budget):
         for s7 in (rng.choice([SETTINGS[0], SETTINGS[1], SETTINGS[3], SETTINGS[4], SETTINGS[5], SETTINGS[8]]),
                    rng.choice([SETTINGS[2], SETTINGS[2], SETTINGS[6], SETTINGS[7], SETTINGS[9]])):
             cases.append(Case(text, full_settings(s7, rng), fam, inputs))
+    # a malformed stream: truncated / corrupted grammar texts (both layouts must report the same diagnosis)
+    for k in range(max(6, n_random // 15)):
+        text = rng.choice(CORPUS)[1]
+        m = rng.randrange(4)
+        if m == 0:
+            text = text[:rng.randrange(len(text))]
+        elif m == 1:
+            i = rng.randrange(len(text))
+            text = text[:i] + rng.choice(";:|'{}/\\\x00é") + text[i + 1:]
+        elif m == 2:
+            text = text.replace("terminals", "")
+        else:
+            text = text.replace(";", "", 1)
+        cases.append(Case(text, full_settings(rng.choice(SETTINGS[:3])), "malformed", []))
     return cases
 
 
@@ -535,7 +553,7 @@ def run_chunk(cases, sel, wd, tag, target):
                 pass
 
 
-def run_batch(cases, sel, wd, rep, workers, chunk=36):
+def run_batch(cases, sel, wd, rep, workers, chunk=48):
     """sel: indices of cases to compile. Chunks of at most `chunk` cases, one crate each; `workers` crates are
     built at the same time, each worker with its own (persistent, shared between runs) target directory."""
     import threading
@@ -673,6 +691,12 @@ def report(rep, cases, proofs_ok):
     viol = 0
     corr = 0
     for c in cases:
+        if c.beh and not c.problems and len(rep.samples) < 4:
+            rep.sample({"grammar": c.grammar, "settings": " ".join(c.settings), "family": c.family,
+                        "compiled parser answers (arrays)": (c.beh.get("A", {}).get("Q") or "")[:300],
+                        "parses": {inp: c.beh.get("A", {}).get("P", {}).get(k) for k, inp in enumerate(c.inputs)}})
+    # smallest failing cases first
+    for c in sorted(cases, key=lambda c: len(c.grammar)):
         kinds = {k for k, _ in c.problems}
         for k in kinds:
             rep.count("fail:" + k)
@@ -755,7 +779,7 @@ def run(rep, tier, seed):
     if not ok:
         rep.violation({"broken": "harness build", "log": log[-3000:]}, no_input=True)
         return
-    n_random, lit_budget, n_batch, workers = (120, 30, 14, 1) if tier == "quick" else (1200, 200, 110, 4)
+    n_random, lit_budget, n_batch, workers = (200, 40, 22, 1) if tier == "quick" else (1500, 200, 140, 4)
     cases = gen_cases(rng, n_random, lit_budget)
     wd = workdir("c08")
     try:
